@@ -293,7 +293,15 @@ func c07BStep(t *rapid.T) kit.Argv {
 		}
 		return []string{randCase(t, pick(t, "opt", "NX", "XX", "GT", "LT"))}
 	}
-	switch weighted(t, "cmd", []int{10, 6, 4, 6, 8, 3, 2}) {
+	switch weighted(t, "cmd", []int{10, 6, 4, 6, 8, 3, 2, 4}) {
+	case 7:
+		// commands aimed at a key of any type: on a type they do not serve they must fail and leave the deadline alone
+		return kit.A(pick(t, "anytype",
+			[]string{"GETEX", k, "EX", "100"}, []string{"GETEX", k, "PERSIST"}, []string{"GETEX", k, "PXAT", "1000"}, []string{"GETEX", k, "PX", "5000000"}, []string{"GETEX", k, "EXAT", "4102444800"}, []string{"GETEX", k},
+			[]string{"GETDEL", k}, []string{"GETSET", k, "v"}, []string{"APPEND", k, "x"}, []string{"INCR", k}, []string{"SETRANGE", k, "0", "x"}, []string{"INCRBYFLOAT", k, "1"},
+			[]string{"RPUSH", k, "x"}, []string{"LPOP", k}, []string{"HSET", k, "f", "v"}, []string{"HDEL", k, "f"}, []string{"SADD", k, "m"}, []string{"SREM", k, "m"}, []string{"SETBIT", k, "1", "1"},
+			[]string{"LMOVE", "kl", k, "LEFT", "RIGHT"}, []string{"SMOVE", "kz", k, "1"}, []string{"SUNIONSTORE", "kz2", "kz", k}, []string{"SETNX", k, "v"}, []string{"HINCRBYFLOAT", k, "f", "inf"},
+		)...)
 	case 0:
 		var a []string
 		switch rapid.IntRange(0, 4).Draw(t, "which") {
